@@ -122,9 +122,53 @@ def c05_program(pid, shape, is_async, ret, explicit_static=False):
     return Program(pid, desc, src, hs, ['C05'])
 
 
+def c05_downstream_program(pid, vis, is_async):
+    """README "Case 1": the leaf trait of a library module is adopted by an application that lives OUTSIDE that module"""
+    asy = 'async ' if is_async else ''
+    aw = ' rt::YieldOnce(false).await;' if is_async else ''
+    src = PRELUDE + PROBE
+    src += (f'pub mod lib_a {{\n    use crate::rt;\n    pub struct Config {{ pub id: u32 }}\n'
+            f'    #[::entrait::entrait({vis} GetFoo)]\n'
+            f'    pub {asy}fn get_foo(config: &Config, q1: u32, q0: u32) -> u64 {{\n'
+            f'        rt::trace(1, 0, rt::addr(config), 2, [q1 as u64, q0 as u64, 0, 0, 0, 0]);{aw}\n'
+            f'        rt::mix(rt::mix(rt::mix(5, config.id as u64), q1 as u64), q0 as u64)\n    }}\n}}\n')
+    src += (f'pub mod downstream {{\n    use crate::rt;\n    pub struct DApp {{ pub id: u32 }}\n'
+            f'    impl super::lib_a::GetFoo for DApp {{\n        {asy}fn get_foo(&self, a: u32, b: u32) -> u64 {{\n'
+            f'            rt::trace(7, 0, rt::addr(self), 2, [a as u64, b as u64, 0, 0, 0, 0]);{aw}\n'
+            f'            rt::mix(a as u64, b as u64)\n        }}\n    }}\n}}\n')
+    src += 'impl<T: lib_a::GetFoo> Probe<T> { pub fn yes(&self) -> bool { true } }\n'
+
+    def call(e):
+        return f'rt::block_on({e})' if is_async else e
+    hs = []
+    h = f'{pid}_h_downstream'
+    src += harness_head(h)
+    src += (f'    use lib_a::GetFoo;\n'
+            f'    let id: u32 = kani::any(); let a: u32 = kani::any(); let b: u32 = kani::any();\n'
+            f'    let app = Impl::new(downstream::DApp {{ id }});\n    rt::reset();\n'
+            f'    let via = {call("app.get_foo(a, b)")};\n'
+            f'    assert!(rt::count() == 1, "exactly one call"); let e = rt::ev(0);\n'
+            f'    assert!(e.fn_id == 7, "hand-written impl of the downstream application reached");\n'
+            f'    assert!(e.deps == rt::addr(&*app), "forwarded to T");\n'
+            f'    assert!(e.args[0] == a as u64 && e.args[1] == b as u64, "arguments in order");\n'
+            f'    assert!(via == rt::mix(a as u64, b as u64));\n'
+            f'    let lib = Impl::new(lib_a::Config {{ id }});\n    rt::reset();\n'
+            f'    let via = {call("lib.get_foo(a, b)")};\n'
+            f'    assert!(rt::count() == 1 && rt::ev(0).fn_id == 1 && rt::ev(0).deps == rt::addr(&*lib), "Impl<Config> works out of the box");\n'
+            f'    rt::reset();\n    let dir = {call("lib_a::get_foo(&*lib, a, b)")};\n    assert!(via == dir, "result equals the direct call");\n'
+            f'    assert!(Probe::<Impl<downstream::DApp>>(core::marker::PhantomData).yes(), "Impl<DApp>: GetFoo");\n'
+            f'    kani::cover!(true);\n}}\n')
+    hs.append(h)
+    return Program(pid, f'concrete deps adopted downstream (other module) trait-vis={vis} async={is_async}', src, hs, ['C05'])
+
+
 def c05_corpus(tier, seed):
     progs = []
     k = 0
+    for vis in ('pub', 'pub(crate)'):
+        for is_async in (False, True):
+            k += 1
+            progs.append(c05_downstream_program(f'c05_{k:03d}', vis, is_async))
     for shape in C05_SHAPES:
         for is_async in (False, True):
             for ret in ('owned', 'borrowed'):
